@@ -145,16 +145,25 @@ func rawState(l *sqlLexer) stateFn {
 				return placeholderState
 			}
 		case '-':
+			// as the parser reads it: -- opens a comment only in front of a blank, a tab, a line end or the end of the text
 			nextRune, width := utf8.DecodeRuneInString(l.src[l.pos:])
 			if nextRune == '-' {
-				l.pos += width
-				return oneLineCommentState
+				after, afterWidth := utf8.DecodeRuneInString(l.src[l.pos+width:])
+				if after == ' ' || after == '\n' || after == '\t' || after == '\r' || (after == utf8.RuneError && afterWidth == 0) {
+					l.pos += width
+					return oneLineCommentState
+				}
 			}
 		case '/':
 			nextRune, width := utf8.DecodeRuneInString(l.src[l.pos:])
 			if nextRune == '*' {
 				l.pos += width
 				return multilineCommentState
+			}
+			// the parser also takes // for the start of a comment that runs to the end of the line
+			if nextRune == '/' {
+				l.pos += width
+				return oneLineCommentState
 			}
 		case utf8.RuneError:
 			if width != replacementcharacterwidth {
@@ -300,11 +309,10 @@ func oneLineCommentState(l *sqlLexer) stateFn {
 		r, width := utf8.DecodeRuneInString(l.src[l.pos:])
 		l.pos += width
 
+		// the parser ends such a comment at the line feed and nowhere else: a carriage return or a
+		// backslash in front of the line end are part of the comment like any other character
 		switch r {
-		case '\\':
-			_, width = utf8.DecodeRuneInString(l.src[l.pos:])
-			l.pos += width
-		case '\n', '\r':
+		case '\n':
 			return rawState
 		case utf8.RuneError:
 			if width != replacementcharacterwidth {
